@@ -712,11 +712,11 @@ def quick_stateful():
 def thorough_stateful():
     return ([c for c in C_EVERY_LINE if c[0].split("@")[1] not in ("a0b", "l0a", "p0b", "r0a")]
             + [("2x2-big", C_2x2_BIG), ("2x2+write-fails", C_2x2_FAIL), ("2x3", C_2x3), ("3x1", C_3x1),
-               ("2x(1,5)", C_2x15), ("3x(1,2,1)", C_3x121), ("2x4", C_2x4)])
+               ("2x(1,5)", C_2x15), ("3x(1,2,1)", C_3x121)])
 
 
 def bounded_configs():
-    return [("3x1", C_3x1), ("3x(1,2,1)", C_3x121), ("4x1", C_4x1), ("3x(2,2,2)+reentrant", C_3x222_R)]
+    return [("3x1", C_3x1), ("3x(1,2,1)", C_3x121), ("3x(2,2,2)+reentrant", C_3x222_R), ("4x1", C_4x1), ("2x4", C_2x4)]
 
 
 def random_config(r, with_reent, large=False, with_fail=False):
@@ -948,9 +948,9 @@ def correspondence(ctx):
         n, complete = explore_dfs(batch, "all-states:" + name, conf, stateful=True, deadline=t0 + ctx.budget(55, 420))
         stateful_done[name] = dict(executions=n, complete=complete)
     ctx.log("state-exhaustive families: %s (%.1fs)" % (stateful_done, time.time() - t0))
-    for name, conf in bounded_configs()[:ctx.budget(1, 4)]:
+    for name, conf in bounded_configs()[:ctx.budget(1, 5)]:
         n, complete = explore_dfs(batch, "preemption<=%d:%s" % (ctx.budget(2, 3), name), conf, bound=ctx.budget(2, 3),
-                                  max_runs=ctx.budget(3000, 60000), deadline=t0 + ctx.budget(60, 640))
+                                  max_runs=ctx.budget(3000, 28000), deadline=t0 + ctx.budget(60, 640))
         bounded[name] = dict(schedules=n, complete=complete, bound=ctx.budget(2, 3))
     ctx.log("preemption-bounded families: %s (%.1fs)" % (bounded, time.time() - t0))
     r = Rng(ctx.seed).fork("c12")
